@@ -396,7 +396,8 @@ Definition step_ok (s : BroCatli) (input : list N) (in_off : N) (out : list N) (
   let wr := span (r_out r) off (r_off r) in
   takeN off (r_out r) = takeN off out /\ in_off <= r_in r /\ r_in r <= lenN input /\
   (if rcode_eqb (r_rc r) NeedsMoreInput || rcode_eqb (r_rc r) NeedsMoreOutput
-   then fut s rest = fut3 (fut (r_s r) rest') wr /\ phase_inv (r_s r) /\ (r_rc r = NeedsMoreInput -> r_in r = lenN input)
+   then fut s rest = fut3 (fut (r_s r) rest') wr /\ phase_inv (r_s r) /\
+        (r_rc r = NeedsMoreInput -> r_in r = lenN input /\ fut (r_s r) [] = ([], r_s r, NeedsMoreInput))
    else fut s rest = (wr, r_s r, r_rc r)).
 
 Lemma span_app_split l a b c : a <= b -> b <= c -> c <= lenN l -> span l a b ++ span l b c = span l a c.
@@ -508,7 +509,7 @@ Proof.
       assert (E : forall l, takeN off l = takeN off (takeN (f_off g) l)).
       { intros l. unfold takeN. rewrite firstn_firstn. f_equal. lia. }
       rewrite (E (r_out r)), (E (f_out g)), B4. reflexivity. }
-    split; [exact Hpre|]. split; [exact Bmono|]. split; [exact Q4|]. split; [|split; [|exact B3]].
+    split; [exact Hpre|]. split; [exact Bmono|]. split; [exact Q4|]. split; [|split; [|intros Hnmi; split; [exact (B3 Hnmi)|unfold fut; destruct B5 as (_ & Bn' & _); rewrite Bn'; reflexivity]]].
     + unfold fut at 1. rewrite Hp, Hw. unfold fut_emit. cbn [fst snd].
       assert (HOsplit : owed p = span (f_out g) off (f_off g) ++ [lb0 (f_s g)]).
       { rewrite <- K1. rewrite (K3 ltac:(rewrite HO; unfold span; rewrite lenN_takeN by (rewrite lenN_dropN; lia); lia)).
@@ -552,7 +553,7 @@ Proof.
   destruct Pr' as (_ & _ & _ & Q4 & _).
   unfold step_ok. cbv zeta.
   assert (Hrc : rcode_eqb (r_rc r) NeedsMoreInput || rcode_eqb (r_rc r) NeedsMoreOutput = true) by (destruct B2 as [-> | ->]; reflexivity).
-  rewrite Hrc. split; [exact B4|]. split; [exact Bmono|]. split; [exact Q4|]. split; [|split; [|exact B3]].
+  rewrite Hrc. split; [exact B4|]. split; [exact Bmono|]. split; [exact Q4|]. split; [|split; [|intros Hnmi; split; [exact (B3 Hnmi)|unfold fut; destruct B5 as (_ & Bn' & _); rewrite Bn'; reflexivity]]].
   - unfold fut. rewrite Hn. destruct B5 as (_ & Bn & _). rewrite Bn. rewrite B1. reflexivity.
   - unfold phase_inv. destruct B5 as (BI' & Bn & Bw). split; [exact BI'|]. split; [apply Started_ws; exact Bw|]. rewrite Bn. exact B6.
 Qed.
@@ -810,8 +811,15 @@ Proof.
     rewrite span_nil. replace (in_off + tc - in_off) with tc by lia. rewrite R1. fold rest'.
     apply negb_true_iff in Esuf. unfold sufficient, NUM_STREAM_HEADER_BYTES in Esuf. subst p1. cbn [num_bytes_read] in Esuf.
     apply N.eqb_neq in Esuf. rewrite La in Esuf.
-    split; [reflexivity|]. split; [lia|]. split; [lia|]. split; [|split; [exact Hph1|intros _; subst tc; lia]].
-    rewrite Hfut, Hfut1. unfold fut3. cbn [app]. destruct (fut_collect _ _ rest') as [[e s'] rc]. reflexivity. }
+    split; [reflexivity|]. split; [lia|]. split; [lia|]. split; [|split; [exact Hph1|intros _; split; [subst tc; lia|]]].
+    { rewrite Hfut, Hfut1. unfold fut3. cbn [app]. destruct (fut_collect _ _ rest') as [[e s'] rc]. reflexivity. }
+    (* quiescent: a further call without input would change nothing *)
+    unfold fut. rewrite Hp1. cbn [num_bytes_written]. unfold fut_collect. rewrite (flush_ref_sanitized s1 Hs1). cbn [f_rc f_s].
+    change (fret_written (mkF s1 [0] 0 Success)) with (@nil N). cbn [num_bytes_read bytes_so_far lenN].
+    rewrite N.min_0_r. change (takeN 0 []) with (@nil N). rewrite blit_nil by (rewrite blit_len by (rewrite La, P1; subst tc; lia); rewrite P1; lia).
+    rewrite !N.add_0_r. rewrite La.
+    replace (k + tc <? 5) with true by (symmetry; apply N.ltb_lt; lia).
+    rewrite set_pending_same; [reflexivity|]. rewrite Hp1. rewrite La. reflexivity. }
   apply negb_false_iff in Esuf. unfold sufficient, NUM_STREAM_HEADER_BYTES in Esuf. apply N.eqb_eq in Esuf.
   destruct (N.eqb_spec (lenN out) off) as [Efull|Eroom].
   { injection Hr as <-. cbn [r_s r_in r_out r_off r_rc rcode_eqb rcode_num N.eqb Pos.eqb orb].
@@ -870,7 +878,7 @@ Proof.
     { rewrite <- Hpre2. assert (E : forall l n, off <= n -> takeN off l = takeN off (takeN n l)) by (intros l n Hn; unfold takeN; rewrite firstn_firstn; f_equal; lia).
       rewrite (E (r_out r) (f_off g)), B4, <- (E (f_out g) (f_off g)) by (subst off2; lia).
       rewrite (E (f_out g) off2), G0, <- (E out2 off2) by (subst off2; lia). reflexivity. }
-    split; [exact Hpre|]. split; [lia|]. split; [exact Q4|]. split; [|split; [|exact B3]].
+    split; [exact Hpre|]. split; [lia|]. split; [exact Q4|]. split; [|split; [|intros Hnmi; split; [exact (B3 Hnmi)|unfold fut; destruct B5 as (_ & Bn' & _); rewrite Bn'; reflexivity]]].
     + (* what is left after the call *)
       assert (Hrest : dropN (r_in r - in_off) (dropN in_off input ++ rest2) = dropN (r_in r - (in_off + tc)) rest').
       { destruct (span_whole_prefix input rest2 in_off (r_in r) ltac:(lia) Q4) as (X1 & _). rewrite X1.
@@ -992,4 +1000,291 @@ Proof.
     + eapply emit_step; eassumption.
     + eapply collect_step; eassumption.
   - eapply bodyphase_step; eassumption.
+Qed.
+
+(* ------------------------------------------------------------------ any protocol-following sequence of calls over one member *)
+(* member_calls need s rest e s' rc : from state s, with the bytes `rest` of the member still to be
+   fed, some sequence of stream calls - any input buffer whose unread part is a prefix of what is
+   left, any output buffer, any cursors, any amount of free space - follows the protocol (after
+   NeedsMoreOutput another call is due, `need`; after NeedsMoreInput the next bytes are offered;
+   with nothing left and no call due the member is finished) and writes the bytes e, ending in s'
+   with the answer rc (NeedsMoreInput, or the error that stopped the run). *)
+Inductive member_calls : bool -> BroCatli -> list N -> list N -> BroCatli -> rcode -> Prop :=
+  | mc_done : forall s, member_calls false s [] [] s NeedsMoreInput
+  | mc_input : forall need s rest input in_off out off r rest2 e s' rc,
+      (need = true \/ rest <> []) ->
+      in_off <= lenN input -> off <= lenN out -> bytes_ok input -> bytes_ok out ->
+      rest = dropN in_off input ++ rest2 ->
+      stream s input in_off out off = Val r -> r_rc r = NeedsMoreInput ->
+      member_calls false (r_s r) (dropN (r_in r - in_off) rest) e s' rc ->
+      member_calls need s rest (span (r_out r) off (r_off r) ++ e) s' rc
+  | mc_output : forall need s rest input in_off out off r rest2 e s' rc,
+      (need = true \/ rest <> []) ->
+      in_off <= lenN input -> off <= lenN out -> bytes_ok input -> bytes_ok out ->
+      rest = dropN in_off input ++ rest2 ->
+      stream s input in_off out off = Val r -> r_rc r = NeedsMoreOutput ->
+      member_calls true (r_s r) (dropN (r_in r - in_off) rest) e s' rc ->
+      member_calls need s rest (span (r_out r) off (r_off r) ++ e) s' rc
+  | mc_error : forall need s rest input in_off out off r rest2,
+      (need = true \/ rest <> []) ->
+      in_off <= lenN input -> off <= lenN out -> bytes_ok input -> bytes_ok out ->
+      rest = dropN in_off input ++ rest2 ->
+      stream s input in_off out off = Val r -> r_rc r <> NeedsMoreInput -> r_rc r <> NeedsMoreOutput ->
+      member_calls need s rest (span (r_out r) off (r_off r)) (r_s r) (r_rc r).
+
+Theorem member_calls_fut need s rest e s' rc :
+  member_calls need s rest e s' rc -> phase_inv s ->
+  (need = true \/ rest <> [] \/ fut s [] = ([], s, NeedsMoreInput)) ->
+  fut s rest = (e, s', rc) /\ (rc = NeedsMoreInput -> phase_inv s').
+Proof.
+  intros H. induction H as
+    [s
+    |need s rest input in_off out off r rest2 e s' rc Hneed Hio Hoo Hbi Hbo Hrest Hr Hrc Hcont IH
+    |need s rest input in_off out off r rest2 e s' rc Hneed Hio Hoo Hbi Hbo Hrest Hr Hrc Hcont IH
+    |need s rest input in_off out off r rest2 Hneed Hio Hoo Hbi Hbo Hrest Hr Hrc1 Hrc2]; intros Hph Hq.
+  - destruct Hq as [Hq|[Hq|Hq]]; [discriminate|congruence|]. split; [exact Hq|auto].
+  - pose proof (stream_step s input in_off out off r rest2 Hph Hbi Hbo Hio Hoo Hr) as Hst.
+    unfold step_ok in Hst. cbv zeta in Hst. rewrite Hrc in Hst. cbn [rcode_eqb rcode_num N.eqb Pos.eqb orb] in Hst.
+    destruct Hst as (_ & _ & _ & S3 & S4 & S5). destruct (S5 eq_refl) as (S6 & S7).
+    rewrite <- Hrest in S3.
+    destruct (IH S4 ltac:(right; right; exact S7)) as (IH1 & IH2).
+    split; [|exact IH2]. rewrite S3, IH1. reflexivity.
+  - pose proof (stream_step s input in_off out off r rest2 Hph Hbi Hbo Hio Hoo Hr) as Hst.
+    unfold step_ok in Hst. cbv zeta in Hst. rewrite Hrc in Hst. cbn [rcode_eqb rcode_num N.eqb Pos.eqb orb] in Hst.
+    destruct Hst as (_ & _ & _ & S3 & S4 & _).
+    rewrite <- Hrest in S3.
+    destruct (IH S4 ltac:(left; reflexivity)) as (IH1 & IH2).
+    split; [|exact IH2]. rewrite S3, IH1. reflexivity.
+  - pose proof (stream_step s input in_off out off r rest2 Hph Hbi Hbo Hio Hoo Hr) as Hst.
+    unfold step_ok in Hst. cbv zeta in Hst.
+    assert (Hrc : rcode_eqb (r_rc r) NeedsMoreInput || rcode_eqb (r_rc r) NeedsMoreOutput = false) by (destruct (r_rc r); try reflexivity; congruence).
+    rewrite Hrc in Hst. destruct Hst as (_ & _ & _ & S3). rewrite <- Hrest in S3.
+    split; [exact S3|]. intros E. congruence.
+Qed.
+
+(* C12, one member: any two protocol-following ways of feeding the same bytes from the same state
+   write the same bytes, end with the same answer and (unless stopped by an error) in the same state *)
+Theorem member_slicing_independent need s rest e1 s1 rc1 e2 s2 rc2 :
+  phase_inv s -> member_calls need s rest e1 s1 rc1 -> member_calls need s rest e2 s2 rc2 ->
+  e1 = e2 /\ s1 = s2 /\ rc1 = rc2.
+Proof.
+  intros Hph H1 H2.
+  destruct need.
+  - destruct (member_calls_fut _ _ _ _ _ _ H1 Hph ltac:(left; reflexivity)) as (A & _).
+    destruct (member_calls_fut _ _ _ _ _ _ H2 Hph ltac:(left; reflexivity)) as (B & _).
+    rewrite A in B. injection B as -> -> ->. auto.
+  - destruct rest as [|x rest].
+    + (* an empty member: no call is made *)
+      inversion H1; subst; try (match goal with H : false = true \/ [] <> [] |- _ => destruct H; [discriminate|congruence] end).
+      inversion H2; subst; try (match goal with H : false = true \/ [] <> [] |- _ => destruct H; [discriminate|congruence] end).
+      auto.
+    + destruct (member_calls_fut _ _ _ _ _ _ H1 Hph ltac:(right; left; discriminate)) as (A & _).
+      destruct (member_calls_fut _ _ _ _ _ _ H2 Hph ltac:(right; left; discriminate)) as (B & _).
+      rewrite A in B. injection B as -> -> ->. auto.
+Qed.
+
+(* ------------------------------------------------------------------ finish, under any output slicing *)
+(* what finish still has to write: the held-back tail with the end marker re-appended (or ';' when
+   nothing was ever written) *)
+Definition fin_prepare (s : BroCatli) : BroCatli :=
+  if last_byte_sanitized s && negb (last_bytes_len s =? 0)
+  then match append_eof_metablock_to_last_bytes s with Val s1 => s1 | Panic => s end
+  else s.
+Definition fin_owed (s : BroCatli) : list N :=
+  let s1 := fin_prepare s in
+  if last_bytes_len s1 =? 0 then (if any_bytes_emitted s1 then [] else [59]) else held s1.
+
+Lemma finish_loop_exact : forall n s out off,
+  last_bytes_len s <= N.of_nat n -> last_bytes_len s <= 2 -> off <= lenN out ->
+  exists f, finish_loop n s out off = Val f /\
+    span (f_out f) off (f_off f) ++ held (f_s f) = held s /\ takeN off (f_out f) = takeN off out /\
+    lenN (f_out f) = lenN out /\ off <= f_off f /\ f_off f <= lenN out /\
+    last_bytes_len (f_s f) <= 2 /\ last_byte_sanitized (f_s f) = last_byte_sanitized s /\
+    any_bytes_emitted (f_s f) = any_bytes_emitted s || negb (f_off f =? off) /\
+    (off = f_off f -> f_s f = s) /\
+    ((f_rc f = Success /\ last_bytes_len (f_s f) = 0) \/ (f_rc f = NeedsMoreOutput /\ f_off f = lenN out /\ last_bytes_len (f_s f) <> 0)).
+Proof.
+  induction n as [|n IH]; intros s out off Hn Hl Hoo.
+  - assert (E : last_bytes_len s = 0) by (cbn in Hn; lia).
+    exists (mkF s out off Success). cbn [finish_loop f_s f_out f_off f_rc]. rewrite span_nil, N.eqb_refl, orb_false_r. cbn [app].
+    repeat split; auto; try lia.
+  - cbn [finish_loop]. destruct (N.eqb_spec (last_bytes_len s) 0) as [E0|E0].
+    { exists (mkF s out off Success). cbn [f_s f_out f_off f_rc]. rewrite span_nil, N.eqb_refl, orb_false_r. cbn [app]. repeat split; auto; try lia. }
+    destruct (N.eqb_spec off (lenN out)) as [E1|E1].
+    { exists (mkF s out off NeedsMoreOutput). cbn [f_s f_out f_off f_rc]. rewrite span_nil, N.eqb_refl, orb_false_r. cbn [app]. repeat split; auto; try lia. }
+    rewrite updN_ok by lia. unfold sub_u. replace (last_bytes_len s <? 1) with false by (symmetry; apply N.ltb_ge; lia).
+    set (s' := set_any (set_lbs (set_len s (last_bytes_len s - 1)) (lb1 s) (lb1 s)) true).
+    destruct (IH s' (setN out off (lb0 s)) (off + 1)) as (f & Ef & F1 & F2 & F3 & F4 & F5 & F6 & F7 & F8 & F9 & F10).
+    + subst s'. destruct s; cbn in *. lia.
+    + subst s'. destruct s; cbn in *. lia.
+    + rewrite lenN_setN by lia. lia.
+    + exists f. split; [exact Ef|]. rewrite lenN_setN in * by lia.
+      assert (Hpre : takeN off (f_out f) = takeN off out).
+      { assert (E : forall l, takeN off l = takeN off (takeN (off + 1) l)) by (intros l; unfold takeN; rewrite firstn_firstn; f_equal; lia).
+        rewrite (E (f_out f)), F2, <- (E (setN out off (lb0 s))). rewrite setN_blit. apply take_blit. cbn [lenN]. lia. }
+      assert (Hsp : span (f_out f) off (off + 1) = [lb0 s]).
+      { rewrite (span_prefix_eq (f_out f) (setN out off (lb0 s)) off (off + 1) F2) by lia.
+        rewrite setN_blit. pose proof (span_blit out off [lb0 s] ltac:(cbn [lenN]; lia)) as X. cbn [lenN] in X.
+        replace (off + N.succ 0) with (off + 1) in X by lia. exact X. }
+      split.
+      { rewrite <- (span_app_split (f_out f) off (off + 1) (f_off f)) by lia. rewrite Hsp, <- app_assoc, F1.
+        subst s'. unfold held. destruct s as [a0 a1 len san any bo ws pend]; cbn in *.
+        assert (len = 1 \/ len = 2) by lia. destruct H as [-> | ->]; reflexivity. }
+      split; [exact Hpre|]. split; [exact F3|]. split; [lia|]. split; [exact F5|]. split; [exact F6|].
+      split; [rewrite F7; subst s'; destruct s; reflexivity|].
+      split.
+      { rewrite F8. subst s'. replace (f_off f =? off) with false by (symmetry; apply N.eqb_neq; lia).
+        destruct s; cbn. rewrite orb_true_r. reflexivity. }
+      split; [intros; lia|]. exact F10.
+Qed.
+
+Lemma fin_prepare_idem s : InvP s -> last_byte_sanitized (fin_prepare s) = false \/ last_bytes_len (fin_prepare s) = 0.
+Proof.
+  intros HI. unfold fin_prepare. destruct (last_byte_sanitized s) eqn:Es; cbn [andb]; [|left; exact Es].
+  destruct (N.eqb_spec (last_bytes_len s) 0) as [E|E]; cbn [negb]; [right; exact E|].
+  destruct (append_eof_ok s HI Es E) as (s1 & E1 & _ & B & _). rewrite E1. left. exact B.
+Qed.
+
+Lemma fin_prepare_fix x : last_byte_sanitized x = false \/ last_bytes_len x = 0 -> fin_prepare x = x.
+Proof. intros [Hx|Hx]; unfold fin_prepare; [rewrite Hx; reflexivity|rewrite Hx, andb_false_r; reflexivity]. Qed.
+
+Lemma held_nil x : last_bytes_len x = 0 -> held x = [].
+Proof. intros Hx; unfold held; rewrite Hx; reflexivity. Qed.
+
+Theorem finish_step s out off f : InvP s -> bytes_ok out -> off <= lenN out ->
+  finish s out off = Val f ->
+  span (f_out f) off (f_off f) ++ fin_owed (f_s f) = fin_owed s /\ takeN off (f_out f) = takeN off out /\
+  InvP (f_s f) /\ (f_rc f = Success \/ f_rc f = NeedsMoreOutput) /\ (f_rc f = Success -> fin_owed (f_s f) = []).
+Proof.
+  intros HI Hbo Hoo Hf.
+  destruct (finish_total s out off HI Hbo Hoo) as (f' & Ef' & Pf'). rewrite Hf in Ef'. injection Ef' as <-.
+  destruct Pf' as (HI' & _ & _ & _ & _ & _ & _ & Hrc & _).
+  assert (Hgoal : span (f_out f) off (f_off f) ++ fin_owed (f_s f) = fin_owed s /\ takeN off (f_out f) = takeN off out /\
+                  (f_rc f = Success -> fin_owed (f_s f) = [])).
+  2: { destruct Hgoal as (A & B & C). split; [exact A|split; [exact B|split; [exact HI'|split; [exact Hrc|exact C]]]]. }
+  clear HI' Hrc.
+  unfold finish in Hf. set (s1 := fin_prepare s).
+  assert (Es1 : (if last_byte_sanitized s && negb (last_bytes_len s =? 0) then append_eof_metablock_to_last_bytes s else Val s) = Val s1).
+  { subst s1. unfold fin_prepare. destruct (last_byte_sanitized s) eqn:Es; cbn [andb]; [|reflexivity].
+    destruct (N.eqb_spec (last_bytes_len s) 0) as [E|E]; cbn [negb]; [reflexivity|].
+    destruct (append_eof_ok s HI Es E) as (s1' & E1 & _). rewrite E1. reflexivity. }
+  rewrite Es1 in Hf.
+  assert (HI1 : InvP s1).
+  { subst s1. unfold fin_prepare. destruct (last_byte_sanitized s) eqn:Es; cbn [andb]; [|exact HI].
+    destruct (N.eqb_spec (last_bytes_len s) 0) as [E|E]; cbn [negb]; [exact HI|].
+    destruct (append_eof_ok s HI Es E) as (s1' & E1 & A & _). rewrite E1. exact A. }
+  pose proof HI1 as [_ _ Hl1 _ _ _ _ _ _].
+  destruct (finish_loop_exact 256 s1 out off ltac:(rewrite of_nat_256; lia) Hl1 Hoo) as (g & Eg & G1 & G2 & G3 & G4 & G5 & G6 & G7 & G8 & G9 & G10).
+  rewrite Eg in Hf.
+  pose proof (fin_prepare_idem s HI) as Hidem. fold s1 in Hidem.
+  assert (Hs : fin_owed s = if last_bytes_len s1 =? 0 then (if any_bytes_emitted s1 then [] else [59]) else held s1) by reflexivity.
+  rewrite Hs.
+  assert (Hspanlen : lenN (span (f_out g) off (f_off g)) = f_off g - off) by (unfold span; apply lenN_takeN; rewrite lenN_dropN; lia).
+  destruct G10 as [(R1 & R2)|(R1 & R2 & R3)]; rewrite R1 in Hf.
+  - (* everything held has been written *)
+    assert (Hg : fin_prepare (f_s g) = f_s g) by (apply fin_prepare_fix; right; exact R2).
+    rewrite (held_nil _ R2), app_nil_r in G1.
+    assert (Hany : last_bytes_len s1 <> 0 -> any_bytes_emitted (f_s g) = true).
+    { intros E. rewrite G8. replace (f_off g =? off) with false; [apply orb_true_r|]. symmetry. apply N.eqb_neq.
+      assert (lenN (held s1) = last_bytes_len s1) by (apply held_len; exact Hl1). rewrite <- G1, Hspanlen in H. lia. }
+    destruct (any_bytes_emitted (f_s g)) eqn:Ea; cbn [negb] in Hf.
+    + injection Hf as <-. unfold fin_owed. rewrite Hg, R2, Ea. cbn [N.eqb]. rewrite app_nil_r.
+      split; [|split; [exact G2|reflexivity]].
+      destruct (N.eqb_spec (last_bytes_len s1) 0) as [E|E]; [|exact G1].
+      rewrite (held_nil _ E) in G1. rewrite G1.
+      assert (f_off g = off) by (rewrite G1 in Hspanlen; cbn in Hspanlen; lia).
+      rewrite H, N.eqb_refl, orb_false_r in G8. rewrite <- G8. reflexivity.
+    + (* nothing was ever written: the one-byte empty stream *)
+      assert (Hl0 : last_bytes_len s1 = 0).
+      { destruct (N.eq_dec (last_bytes_len s1) 0) as [E|E]; [exact E|]. specialize (Hany E). congruence. }
+      rewrite Hl0. cbn [N.eqb].
+      assert (Hoff : f_off g = off) by (rewrite (held_nil _ Hl0) in G1; rewrite G1 in Hspanlen; cbn in Hspanlen; lia).
+      assert (Hgs : f_s g = s1) by (apply G9; lia).
+      assert (Hany1 : any_bytes_emitted s1 = false) by (rewrite <- Hgs; exact Ea).
+      rewrite Hany1.
+      destruct (N.eqb_spec (lenN (f_out g)) (f_off g)) as [E2|E2].
+      * injection Hf as <-. cbn [f_s f_out f_off f_rc]. rewrite Hoff, span_nil. cbn [app].
+        split; [|split; [exact G2|discriminate]].
+        cbn [f_s f_out f_off f_rc]. unfold fin_owed. rewrite Hg, R2, Ea. reflexivity.
+      * rewrite updN_ok in Hf by lia. injection Hf as <-. cbn [f_s f_out f_off f_rc].
+        assert (Hfo : fin_owed (set_any (f_s g) true) = []).
+        { unfold fin_owed. rewrite fin_prepare_fix by (right; destruct (f_s g); exact R2).
+          replace (last_bytes_len (set_any (f_s g) true)) with 0 by (destruct (f_s g); cbn in *; congruence).
+          destruct (f_s g); reflexivity. }
+        rewrite Hfo, app_nil_r.
+        split; [|split; [|reflexivity]].
+        -- rewrite Hoff. rewrite setN_blit. pose proof (span_blit (f_out g) off [59] ltac:(cbn [lenN]; lia)) as X. cbn [lenN] in X.
+           replace (off + N.succ 0) with (off + 1) in X by lia. exact X.
+        -- rewrite Hoff. rewrite setN_blit. unfold blit. rewrite take_blit by (cbn [lenN]; lia).
+           exact G2.
+  - (* output full *)
+    injection Hf as <-.
+    assert (Hl1' : last_bytes_len s1 <> 0).
+    { intros E. rewrite (held_nil _ E) in G1. apply (f_equal lenN) in G1. rewrite lenN_app, held_len in G1 by exact G6. cbn in G1. lia. }
+    replace (last_bytes_len s1 =? 0) with false by (symmetry; apply N.eqb_neq; exact Hl1').
+    assert (Hsan : last_byte_sanitized (f_s g) = false) by (rewrite G7; destruct Hidem as [H|H]; [exact H|contradiction]).
+    unfold fin_owed. rewrite fin_prepare_fix by (left; exact Hsan).
+    replace (last_bytes_len (f_s g) =? 0) with false by (symmetry; apply N.eqb_neq; exact R3).
+    split; [exact G1|]. split; [exact G2|]. intros X. congruence.
+Qed.
+
+Inductive finish_calls : BroCatli -> list N -> Prop :=
+  | fc_last : forall s out off f, off <= lenN out -> bytes_ok out ->
+      finish s out off = Val f -> f_rc f = Success -> finish_calls s (span (f_out f) off (f_off f))
+  | fc_more : forall s out off f e, off <= lenN out -> bytes_ok out ->
+      finish s out off = Val f -> f_rc f = NeedsMoreOutput -> finish_calls (f_s f) e ->
+      finish_calls s (span (f_out f) off (f_off f) ++ e).
+
+Theorem finish_calls_owed s e : finish_calls s e -> InvP s -> e = fin_owed s.
+Proof.
+  intros H. induction H as [s out off f Hoo Hbo Hf Hrc|s out off f e Hoo Hbo Hf Hrc Hrest IH]; intros HI.
+  - destruct (finish_step s out off f HI Hbo Hoo Hf) as (A & _ & _ & _ & C). rewrite (C Hrc), app_nil_r in A. exact A.
+  - destruct (finish_step s out off f HI Hbo Hoo Hf) as (A & _ & B & _). rewrite <- A, (IH B). reflexivity.
+Qed.
+
+(* ------------------------------------------------------------------ whole runs *)
+(* run_calls s ms e rc : the members ms are fed one after the other (new_brotli_file, then any
+   protocol-following call sequence over the member's bytes), then finish is called until it
+   succeeds; e = everything written, rc = Success or the error that stopped the run *)
+Inductive run_calls : BroCatli -> list (list N) -> list N -> rcode -> Prop :=
+  | rc_finish : forall s e, finish_calls s e -> run_calls s [] e Success
+  | rc_member : forall s m ms e s' e' rc,
+      member_calls false (new_brotli_file s) m e s' NeedsMoreInput -> run_calls s' ms e' rc ->
+      run_calls s (m :: ms) (e ++ e') rc
+  | rc_stopped : forall s m ms e s' rc,
+      member_calls false (new_brotli_file s) m e s' rc -> rc <> NeedsMoreInput ->
+      run_calls s (m :: ms) e rc.
+
+Lemma phase_inv_new_file s : InvP s -> phase_inv (new_brotli_file s).
+Proof.
+  intros HI. destruct (InvP_new_brotli_file s HI) as (A & B). unfold phase_inv. split; [exact A|]. split; [exact B|].
+  unfold new_brotli_file. destruct s; cbn. exact I.
+Qed.
+
+Lemma member_calls_keeps_inv s m e s' : InvP s -> member_calls false (new_brotli_file s) m e s' NeedsMoreInput -> InvP s'.
+Proof.
+  intros HI H. destruct m as [|x m].
+  - inversion H; subst; try (match goal with X : false = true \/ [] <> [] |- _ => destruct X; [discriminate|congruence] end).
+    apply InvP_new_brotli_file. exact HI.
+  - destruct (member_calls_fut _ _ _ _ _ _ H (phase_inv_new_file s HI) ltac:(right; left; discriminate)) as (_ & B).
+    destruct (B eq_refl) as (C & _). exact C.
+Qed.
+
+(* C12_slicing over the protocol relation: same members, any two protocol-following runs *)
+Theorem run_slicing_independent s ms e1 rc1 : run_calls s ms e1 rc1 -> InvP s ->
+  forall e2 rc2, run_calls s ms e2 rc2 -> e1 = e2 /\ rc1 = rc2.
+Proof.
+  intros H. induction H as [s e Hf|s m ms e s' e' rc Hm Hrest IH|s m ms e s' rc Hm Hrc]; intros HI e2 rc2 H2.
+  - inversion H2; subst. rewrite (finish_calls_owed _ _ Hf HI). rewrite (finish_calls_owed _ _ H HI). auto.
+  - inversion H2; subst.
+    + destruct (member_slicing_independent false (new_brotli_file s) m e s' NeedsMoreInput e0 s'0 NeedsMoreInput
+                  (phase_inv_new_file s HI) Hm H3) as (-> & -> & _).
+      destruct (IH (member_calls_keeps_inv s m e0 s'0 HI H3) e'0 rc2 H6) as (-> & ->). auto.
+    + destruct (member_slicing_independent false (new_brotli_file s) m e s' NeedsMoreInput e2 s'0 rc2
+                  (phase_inv_new_file s HI) Hm H3) as (_ & _ & E). congruence.
+  - inversion H2; subst.
+    + destruct (member_slicing_independent false (new_brotli_file s) m e s' rc e0 s'0 NeedsMoreInput
+                  (phase_inv_new_file s HI) Hm H3) as (_ & _ & E). congruence.
+    + destruct (member_slicing_independent false (new_brotli_file s) m e s' rc e2 s'0 rc2
+                  (phase_inv_new_file s HI) Hm H3) as (-> & _ & ->). auto.
 Qed.
